@@ -15,8 +15,8 @@ LEVEL_TEXT["C06"] = (
     "split theorems of C16 / C12. Each with its `*_framing` corollary from the constructor's state. Instance independence: in the pure model two "
     "objects used in any interleaving produce what each produces alone (instances_independent). "
     "Tie: the driver executes exactly the `runFrames` the theorems speak about, frame by frame, on the models of C07/C08/C12/C16/C20 and three local "
-    "models (Delay, Tuner, HilbertFilter::process); bit-exact agreement with the real objects on every correspondence case except the FFT path "
-    "(different FFT algorithm, <= 1e-15 observed, 1e-9 allowed). "
+    "models (Delay, Tuner, HilbertFilter::process); bit-exact agreement with the real objects on every correspondence case, the FftFilter path "
+    "included (its transform pair is instantiated with the C01 model of the library's own plans, Fft.fftC / Fft.ifftWith: tolerance 0). "
     "ORACLE (the C++ side of the same statement, incl. what no model sees: aliasing, statics, in-place buffers): the implementation against itself, "
     "memcmp of the doubles, whole-stream call vs EVERY composition of short streams, heavy-tailed random framings of streams to 1e5 samples, and "
     "2..4 separately constructed instances used interleaved."
@@ -26,7 +26,9 @@ PROPS["C06"] = {
     "gen": ["Cmplx", "Dynamics"],
     "lean_props": "DspVerif.Props.C06",
     "harness": [{"src": "c06.cpp", "cfg": "rel",
-                 "tol": {"frame": (1e-11, 1e-290), "frameF": (1e-9, 0.0), "frameR": (1e-9, 0.0)}}],
+                 "tol": {"frame": (1e-11, 1e-290), # frameF: FftFilter model on the C01 model of the library's plans (same operation order): worst observed deviation 0
+                         # (seeds 1,2,3 quick; seed 1 thorough) -> compared bit for bit
+                         "frameF": (0.0, 0.0), "frameR": (1e-9, 0.0)}}],
     "rule": "per processor (FirFilter R/C, FftFilter R/C, MAFilter R/C, Delay R/C (+ initial buffer), MedianFilter, HilbertFilter (explicit type-3 taps and "
             "the default design), Tuner, FIRInterpolator, FIRDecimator, FIRRateConverter, FIRResampler (custom taps and default designs), Agc R/C, Compressor, "
             "Limiter, NoiseGate, LMS R/C, NLMS R/C, RLS R/C) and parameter point: ALL 2^(k-1) framings of k granules for every k = 1..K (K = 12 thorough, 8 quick; "
@@ -46,7 +48,7 @@ PROPS["C06"] = {
                  "of the implementation (whole stream vs framed, interleaved instances)",
     "level_note": "the theorems are about the hand-written models (tied by correspondence, not by translation); Delay, Tuner and HilbertFilter::process are "
                   "LOCAL models in Model/Framing.lean (the HilbertFilter constructor's firtype check is not modelled: the model is built from impz()); "
-                  "FftFilter's transform pair is a parameter (the split law holds for any two functions; the driver uses its own radix-2 FFT); "
+                  "FftFilter's transform pair is a parameter (the split law holds for any two functions; the driver uses the C01 model of the library's plans, Fft.fftC / Fft.ifftWith, at Float); "
                   "instance independence is immediate in a pure model -- on the C++ side it is established only by the interleaving runs of the oracle; "
                   "bit-exact framing invariance of the compiled code additionally relies on the compiler not reassociating differently per call "
                   "(observed: identical bits on all 14M comparisons)",
